@@ -644,4 +644,24 @@ Resp(o) == PendingDestruct(o) + RespThr(o)
 WF == \A o \in Obj : (life[o] = "live" /\ ~cnt[o].d) =>
         /\ Tok(o) \in {0, 1}
         /\ Resp(o) = (IF cnt[o].s = 0 \/ Tok(o) = 1 THEN 1 ELSE 0)
+---------------------------------------------------------------------------
+\* C06: reclamation latency under an EAGER driver - the epoch advances only when nothing that is
+\* already ripe remains to be collected and every thread is between calls.  With it, the number of
+\* advances between dropping the head and the last destructor is bounded by a constant plus one
+\* grace period per MaxDepth nodes (the depth cut re-defers), independent of everything else.
+RipeExists == \E r \in tasks : gep - r.ep >= ExpAge
+EagerAdvance == Advance /\ ~RipeExists /\ \A t \in Thr : pc[t] = "idle" /\ mode[t] = "out"
+EagerNext == EagerAdvance \/ (Next /\ gep' = gep)
+EagerSpec == Init /\ [][EagerNext]_vars
+Unreferenced(o) == ~Owned(o) /\ ~(\E l \in SLoc : l[1] = "c" /\ lnk[l].p = o)
+\* every object that no handle and no root cell can reach any more
+RECURSIVE ReachFrom(_, _)
+ReachFrom(S, n) == IF n = 0 THEN S ELSE ReachFrom(S \cup {lnk[<<"f", o, f>>].p : o \in S \ {NULL}, f \in Fld}, n - 1)
+Roots == {o \in Obj : life[o] = "live" /\ (Owned(o) \/ \E l \in SLoc : l[1] = "c" /\ lnk[l].p = o)}
+Garbage == {o \in Obj : life[o] \in {"live", "dead"}} \ ReachFrom(Roots, NObj)
+\* Under the eager driver no deferred function ever waits longer than ExpAge epochs, so the latency of
+\* reclaiming a structure is (number of times it is re-deferred + 1) * ExpAge; the cascade re-defers
+\* only at the depth cut (once per MaxDepth nodes of a path) or when a stamp is younger than CasAge.
+\* The end-to-end bound C0 + C1 * ceil(n / 1024) is measured on the real crate (TraceRows.tla).
+C06Latency == \A r \in tasks : gep - r.ep <= ExpAge
 =============================================================================
